@@ -1,9 +1,176 @@
-import Ivg.Model.Decoder
-import Ivg.Model.Arc
-import Ivg.Model.MdIcons
+import Ivg.Lemmas.GeomQ
 import Ivg.Gen.Tie
 import Ivg.Obligations
-/-! # Property C05 — theorems (work in progress: tie obligations only so far) -/
+/-!
+# C05 — drawing operations reach the rasteriser as the right segments, affinely mapped
+
+Property text: "Every drawn path reaches the rasteriser as the same sequence of move/line/quadratic/cubic
+segments as its drawing operations, each coordinate mapped by the affine map that takes the viewBox onto the
+target rectangle (independent x and y scale): absolute operations map points, relative operations are offsets
+from the current pen, H/V keep the other coordinate, smooth operations use the reflection of the previous
+same-degree control point about the pen (or the pen itself when the previous operation was of another kind),
+close-and-move operations close the sub-path before moving (relative moves being relative to the sub-path
+start), and the path is closed and drawn exactly once, over the target rectangle, when it ends."
+
+Model: `Ivg/Model/Renderer.lean` (Go: `/repo/render/render.go`, with the pen contract of
+`golang.org/x/image/vector`).  Specification: `Ivg/Spec/Path.lean` — SVG path semantics in viewBox space
+(`Spec.Path.step`, `Spec.Path.pathSegs`), written from the text above.  The refinement theorems are about
+the model instantiated at EXACT arithmetic (`ℚ`); the structural theorems hold for every number type.
+`GeomQ.T z` is the renderer's affine map `(x, y) ↦ (scaleX·(x + biasX), scaleY·(y + biasY))`;
+`GeomQ.toOp` turns a specification segment into the corresponding rasteriser call;
+`GeomQ.Inv z s` says the renderer state `z` (enabled) represents the specification state `s`:
+pen = `T s.pen`, sub-path start = `T s.start`, and the smooth-point bookkeeping (`prevSmoothType`, point) is
+`T` of the specification's last control point of that degree.
+-/
 namespace Ivg.Props.C05
+open Ivg Ren GeomQ
+open Ivg.Spec.Path (Pt Seg Ctrl State)
+
+/-! ## the affine map -/
+
+/-- Clause "the affine map that takes the viewBox onto the target rectangle (independent x and y scale)",
+    part 1: after `SetRasterizer r` (non-empty) and `Reset vb`, the transform fields are those of `vb`, `r`. -/
+theorem transform_after_reset [SqrtQ] (z0 : Renderer ℚ ℚ) (r : Rect) (posInf : ℚ) (vb : ViewBox ℚ)
+    (pal : Palette) (hr : r.empty = false) :
+    let z := (z0.setRasterizer r).reset posInf vb pal
+    z.r = r ∧ z.viewBox = vb ∧
+    z.scaleX = (r.dx : ℚ) / (vb.maxX - vb.minX) ∧ z.biasX = -vb.minX ∧
+    z.scaleY = (r.dy : ℚ) / (vb.maxY - vb.minY) ∧ z.biasY = -vb.minY :=
+  GeomQ.transform_after_reset z0 r posInf vb pal hr
+example : (⟨0, 0, 64, 48⟩ : Rect).empty = false := by decide
+
+/-- … part 2: then `T` is `x ↦ dx·(x − minX)/(maxX − minX)`, `y ↦ dy·(y − minY)/(maxY − minY)` … -/
+theorem T_closed (z : Renderer ℚ ℚ) (dx dy : ℚ) (vb : ViewBox ℚ)
+    (hsx : z.scaleX = dx / (vb.maxX - vb.minX)) (hbx : z.biasX = -vb.minX)
+    (hsy : z.scaleY = dy / (vb.maxY - vb.minY)) (hby : z.biasY = -vb.minY) (p : Pt ℚ) :
+    T z p = ⟨dx * (p.x - vb.minX) / (vb.maxX - vb.minX), dy * (p.y - vb.minY) / (vb.maxY - vb.minY)⟩ :=
+  GeomQ.T_closed z dx dy vb hsx hbx hsy hby p
+
+/-- … part 3: which maps the viewBox's corners to the corners `(0,0)`, `(dx,dy)` of the target rectangle. -/
+theorem T_corners (z : Renderer ℚ ℚ) (dx dy : ℚ) (vb : ViewBox ℚ)
+    (hsx : z.scaleX = dx / (vb.maxX - vb.minX)) (hbx : z.biasX = -vb.minX)
+    (hsy : z.scaleY = dy / (vb.maxY - vb.minY)) (hby : z.biasY = -vb.minY)
+    (hx : vb.minX < vb.maxX) (hy : vb.minY < vb.maxY) :
+    T z ⟨vb.minX, vb.minY⟩ = ⟨0, 0⟩ ∧ T z ⟨vb.maxX, vb.maxY⟩ = ⟨dx, dy⟩ :=
+  GeomQ.T_corners z dx dy vb hsx hbx hsy hby hx hy
+
+/-- `unabsX`/`unabsY` (used by relative arcs and gradients) invert `T` when the scale is non-zero. -/
+theorem unabs_abs (z : Renderer ℚ ℚ) (hsx : z.scaleX ≠ 0) (hsy : z.scaleY ≠ 0) (p : Pt ℚ) :
+    z.unabsX (T z p).x = p.x ∧ z.unabsY (T z p).y = p.y := GeomQ.unabs_abs z hsx hsy p
+
+/-! ## one drawing call -/
+
+/-- Clauses "absolute operations map points, relative operations are offsets from the current pen, H/V keep
+    the other coordinate, smooth operations use the reflection …, close-and-move operations close the sub-path
+    before moving (relative moves being relative to the sub-path start)": for EVERY non-arc drawing call `c`
+    (the sixteen verbs of `d1 d2 d4 d6`, including `Y`/`y`), an enabled renderer representing the
+    specification state `s` makes exactly the rasteriser calls `toOp (T segment)` for the segments
+    `Spec.Path.step s c` prescribes, ends in a state representing the specification's next state, and leaves
+    the rest of its state (`frame`: target rectangle, transform, registers, selectors, paint, …) untouched. -/
+theorem step_refines [SqrtQ] (arc : ArcFn ℚ ℚ) (posInf : ℚ) (z : Renderer ℚ ℚ) (s : State ℚ) (h : Inv z s)
+    (c : Call ℚ) (hc : Spec.Path.isSeg c = true) :
+    (z.step arc posInf c).2 = ((Spec.Path.step s c).2.map (Seg.map (T z))).map toOp ∧
+    Inv (z.step arc posInf c).1 (Spec.Path.step s c).1 ∧
+    frame (z.step arc posInf c).1 = frame z :=
+  GeomQ.step_refines arc posInf z s h c hc
+
+/-- … and for a whole arc-free sequence of drawing calls. -/
+theorem run_refines [SqrtQ] (arc : ArcFn ℚ ℚ) (posInf : ℚ) (body : List (Call ℚ)) (z : Renderer ℚ ℚ)
+    (s : State ℚ) (h : Inv z s) (hb : ∀ c ∈ body, Spec.Path.isSeg c = true) :
+    (z.run arc posInf body).2 = ((Spec.Path.run s body).2.map (Seg.map (T z))).map toOp ∧
+    Inv (z.run arc posInf body).1 (Spec.Path.run s body).1 ∧
+    frame (z.run arc posInf body).1 = frame z :=
+  GeomQ.run_refines arc posInf body z s h hb
+
+/-- `StartPath` establishes the invariant: it either disables the renderer and draws nothing, or resets the
+    rasteriser to the size of the target rectangle and moves to `T (x, y)`, the state then representing the
+    start of a path at `(x, y)`. -/
+theorem startPath_cases [SqrtQ] (z : Renderer ℚ ℚ) (adj : UInt8) (x y : ℚ) :
+    ((z.startPath adj x y).1.disabled = true ∧ (z.startPath adj x y).2 = []) ∨
+    ((z.startPath adj x y).1.disabled = false ∧
+      (z.startPath adj x y).2 = [.reset z.r.dx z.r.dy, toOp (.move (T z ⟨x, y⟩))] ∧
+      Inv (z.startPath adj x y).1 (Spec.Path.start ⟨x, y⟩) ∧
+      (z.startPath adj x y).1.r = z.r ∧ T (z.startPath adj x y).1 = T z) :=
+  GeomQ.startPath_cases z adj x y
+
+/-! ## a whole path -/
+
+/-- Headline (whole property at exact arithmetic, arcs excepted): an enabled path
+    `StartPath(adj, x, y); body; ClosePathEndPath` with an arc-free `body` reaches the rasteriser as:
+    `Reset` to the size of the target rectangle; then exactly the specification's segments of the path — the
+    initial move, the body's segments, one final close (`Spec.Path.pathSegs`) — each point mapped by `T z`;
+    then exactly ONE `Draw`, over the target rectangle `z.r`, with the paint `StartPath` selected. -/
+theorem geometry_refines [SqrtQ] (arc : ArcFn ℚ ℚ) (posInf : ℚ) (z : Renderer ℚ ℚ) (adj : UInt8) (x y : ℚ)
+    (body : List (Call ℚ)) (hbody : ∀ c ∈ body, Spec.Path.isSeg c = true)
+    (hen : (z.startPath adj x y).1.disabled = false) :
+    (z.run arc posInf (.startPath adj x y :: body ++ [.closeEnd])).2 =
+      .reset z.r.dx z.r.dy ::
+        ((Spec.Path.pathSegs x y body).map (Seg.map (T z))).map toOp ++
+        [.draw z.r (z.startPath adj x y).1.fill] :=
+  GeomQ.geometry_refines arc posInf z adj x y body hbody hen
+-- non-vacuity: a renderer set up for a 64×64 target and the default viewBox is enabled by `StartPath 0`;
+-- a body using a relative line, a smooth quadratic after a quadratic, and a relative close-and-move
+example : ((((Renderer.zero (α := ℚ) (β := ℚ)).setRasterizer ⟨0, 0, 64, 64⟩).reset 100 ⟨-32, -32, 32, 32⟩
+    defaultPalette).startPath 0 (-16) 8).1.disabled = false := GeomQ.example_enabled
+example : ∀ c ∈ ([.d2 .l 3 4, .d4 .Q 1 2 3 4, .d2 .T 5 6, .d2 .y 1 1, .d1 .H 7] : List (Call ℚ)),
+    Spec.Path.isSeg c = true := by decide
+-- what the specification says for that body: the smooth quadratic's control point is the reflection
+-- 2·(3,4) − (1,2) = (5,6) of the previous quadratic control point about the pen; the relative close-and-move
+-- goes to start + (1,1)
+example : (Spec.Path.run (Spec.Path.start (⟨-16, 8⟩ : Pt ℚ)) [.d4 .Q 1 2 3 4, .d2 .T 5 6, .d2 .y 1 1]).2 =
+    [.quad ⟨1, 2⟩ ⟨3, 4⟩, .quad ⟨3 + (3 - 1), 4 + (4 - 2)⟩ ⟨5, 6⟩, .close, .move ⟨-16 + 1, 8 + 1⟩] := rfl
+
+/-! ## structure, for every number type -/
+section generic
+variable {α β : Type} [Arith α] [Arith β] [Wide α β]
+
+/-- For every number type an enabled renderer makes, for each non-arc drawing call, rasteriser calls of exactly
+    the kinds the specification prescribes (one line / quadratic / cubic, or a close followed by a move). -/
+theorem step_kinds (arc : ArcFn α β) (posInf : α) (z : Renderer α β) (s : State α) (hen : z.disabled = false)
+    (c : Call α) (hc : Spec.Path.isSeg c = true) :
+    (z.step arc posInf c).2.map opKind = (Spec.Path.step s c).2.map segKind :=
+  GeomQ.step_kinds arc posInf z s hen c hc
+
+/-- For every number type a disabled renderer makes no rasteriser call. -/
+theorem step_disabled (arc : ArcFn α β) (posInf : α) (z : Renderer α β) (hd : z.disabled = true)
+    (c : Call α) (hc : Spec.Path.isSeg c = true ∨ c = .closeEnd) : (z.step arc posInf c).2 = [] :=
+  GeomQ.step_disabled arc posInf z hd c hc
+
+/-- Clause "close-and-move operations close the sub-path before moving (relative moves being relative to the
+    sub-path start)", for every number type: the relative form moves to `start + scale·offset` — `ClosePath`
+    has put the pen at the sub-path start before the offset is added. -/
+theorem closeMove_generic (arc : ArcFn α β) (posInf : α) (z : Renderer α β) (hen : z.disabled = false) (x y : α) :
+    (z.step arc posInf (.d2 .y x y)).2 =
+      [.closePath, .moveTo (z.firstX + z.scaleX * x) (z.firstY + z.scaleY * y)] ∧
+    (z.step arc posInf (.d2 .Y x y)).2 =
+      [.closePath, .moveTo (z.scaleX * (x + z.biasX)) (z.scaleY * (y + z.biasY))] :=
+  GeomQ.closeMove_generic arc posInf z hen x y
+
+/-- Clause "the path is closed and drawn exactly once, over the target rectangle, when it ends", for every
+    number type. -/
+theorem closeEnd_generic (arc : ArcFn α β) (posInf : α) (z : Renderer α β) (hen : z.disabled = false) :
+    (z.step arc posInf .closeEnd).2 = [.closePath, .draw z.r z.fill] :=
+  GeomQ.closeEnd_generic arc posInf z hen
+end generic
+
+/-!
+## Not proved in this file
+
+* Arcs (`Call.arc`): they are a parameter of the model (`ArcFn`) and are the subject of another property;
+  `geometry_refines` is for arc-free bodies.
+* Rounding: at float32 `T` is computed as `scaleX * (x + biasX)` with two roundings, relative operations
+  add a rounded `scaleX * dx` to the rounded pen, and the reflection is `2*pen − prev` in float32; only the
+  structural theorems (`step_kinds`, `step_disabled`, `closeMove_generic`, `closeEnd_generic`) are proved there.
+* That the calls reach the renderer in this order from an encoded icon (decoder) is C04/C06; which paint
+  `StartPath` selects and when it disables the renderer is C13/C14.
+-/
+
 end Ivg.Props.C05
-#obligations C05 [Ivg.Gen.Tie.drawOps_tie, Ivg.Gen.Tie.magic_tie, Ivg.Gen.Tie.errorStrings_tie]
+
+#obligations C05 [
+  Ivg.Props.C05.transform_after_reset, Ivg.Props.C05.T_closed, Ivg.Props.C05.T_corners,
+  Ivg.Props.C05.unabs_abs, Ivg.Props.C05.step_refines, Ivg.Props.C05.run_refines,
+  Ivg.Props.C05.startPath_cases, Ivg.Props.C05.geometry_refines, Ivg.Props.C05.step_kinds,
+  Ivg.Props.C05.step_disabled, Ivg.Props.C05.closeMove_generic, Ivg.Props.C05.closeEnd_generic,
+  Ivg.Gen.Tie.drawOps_tie, Ivg.Gen.Tie.magic_tie, Ivg.Gen.Tie.renderer_fields_tie,
+  Ivg.Gen.Tie.gradient_fields_tie]
